@@ -61,9 +61,7 @@ class Model:
         self.preloaded = preloaded
         self.events = list(events)
         self.probe = probe
-        self.probed = set()
-        self.probe_memo = {}
-        self.n_probes = 0
+        self.pair_hist = {}
 
     # -- world -------------------------------------------------------------------------------------
     def init(self):
@@ -232,46 +230,46 @@ class Model:
         return w.last_obs
 
     # -- probe: within two further exchanges ---------------------------------------------------------
-    def run_probes(self, w):
-        """Probe "A sends; B sends; A sends" for every ordered pair.  Only A and B take part (the third station stays
-        silent and cannot influence them), so the result is a function of the two stations' states: memoised on them."""
-        out = []
+    def pair_keys(self, w):
         can = self.canon(w)
-        for a in w.joined:
-            for b in w.joined:
-                if a == b:
+        return [(a, b, can[NAMES.index(a)], can[NAMES.index(b)]) for a in w.joined for b in w.joined if a != b]
+
+    def run_pair_probe(self, w, a, b):
+        """Probe "A sends; B sends; A sends" for the ordered pair (a, b) on copies of ``w``.  Only A and B take part (the
+        third station stays silent and cannot influence them), so the result is a function of the two stations' states."""
+        res = []
+        n = 0
+        for pa in KINDS[a]:
+            if pa == "DENM":
+                continue        # always carries the certificate: covered by the at-once rule on every transition
+            for pb in KINDS[b]:
+                if pb not in P2PCD_CAPABLE:
                     continue
-                key = (a, b, can[NAMES.index(a)], can[NAMES.index(b)])
-                res = self.probe_memo.get(key)
-                if res is None:
-                    res = []
-                    for pa in KINDS[a]:
-                        for pb in KINDS[b]:
-                            if pb not in P2PCD_CAPABLE:
-                                continue
-                            c = X.snapshot(self, w)
-                            c.joined = [a, b]
-                            c.links = {(a, b), (b, a)}
-                            r1 = self._send(c, a, pa, light=True)
-                            self._send(c, b, pb, light=True)
-                            r3 = self._send(c, a, pa, light=True)
-                            self.n_probes += 1
-                            if not r3["accepted"].get(b, False):
-                                res.append(dict(kind="not_accepted_within_two_exchanges", profile=pa, reply=pb, sender=a, receiver=b,
-                                                first_accepted=bool(r1["accepted"].get(b, False))))
-                    self.probe_memo[key] = res
-                out += [dict(r) for r in res]
-        return out
+                c = X.snapshot(self, w)
+                c.joined = [a, b]
+                c.links = {(a, b), (b, a)}
+                r1 = self._send(c, a, pa, light=True)
+                self._send(c, b, pb, light=True)
+                r3 = self._send(c, a, pa, light=True)
+                n += 1
+                if not r3["accepted"].get(b, False):
+                    res.append(dict(kind="not_accepted_within_two_exchanges", profile=pa, reply=pb, sender=a, receiver=b,
+                                    first_accepted=bool(r1["accepted"].get(b, False))))
+        return res, n
 
     def check(self, w, ev, obs, hist):
         if isinstance(obs, tuple) and obs and obs[0] == "EXC":
             return [dict(kind="harness_exception", event=list(ev), exc=obs[1] + ":" + obs[2])]
         bad = list(w.bad)
-        if self.probe:
-            k = X._h(self.canon(w))
-            if k not in self.probed:
-                self.probed.add(k)
-                bad += self.run_probes(w)
+        for key in self.pair_keys(w):
+            h = self.pair_hist.get(key)
+            if h is None:
+                self.pair_hist[key] = [list(hist), None]      # first (shortest, BFS order) and one alternative history
+            elif h[1] is None and list(hist) != h[0]:
+                h[1] = list(hist)
+        if self.probe:       # replay mode: run the probes of this state immediately
+            for (a, b, _ca, _cb) in self.pair_keys(w):
+                bad += self.run_pair_probe(w, a, b)[0]
         return bad
 
     def canon(self, w):
@@ -296,7 +294,10 @@ def _mk(preloaded, events, probe=True):
     return Model(preloaded, events, probe)
 
 
-def all_events(thorough):
+def all_events(thorough=False, reduced=False):
+    if reduced:     # deeper histories on the P2PCD-relevant core of the alphabet
+        return [("send", "S1", "CAM"), ("send", "S1", "GEN"), ("send", "S2", "CAM"), ("send", "S3", "CAM"),
+                ("adv", 0.4), ("adv", 1.1), ("join",)]
     evs = [("send", s, k) for s in NAMES for k in KINDS[s]]
     evs += [("adv", 0.4), ("adv", 1.1), ("join",)]
     return evs
@@ -321,6 +322,57 @@ def _aid_job(args):
     return (kind, psid), bad, res["accepted"].get("S2", False)
 
 
+def _bfs_job(args):
+    pre, evs, prefix, depth = args
+    m = Model(pre, evs, probe=False)
+    r = X.bfs(m, depth, prefix=prefix, xcheck_every=41)
+    return r, m.pair_hist
+
+
+def _probe_job(args):
+    """All pair probes whose representative history is ``hist`` (the world is rebuilt once)."""
+    pre, evs, hist, keys = args
+    m = Model(pre, evs, probe=False)
+    w = X.rebuild(m, [tuple(e) for e in hist])
+    can = m.canon(w)
+    out = []
+    n = 0
+    for key in keys:
+        a, b = key[0], key[1]
+        if (can[NAMES.index(a)], can[NAMES.index(b)]) != (key[2], key[3]):
+            raise RuntimeError(f"history does not reproduce pair state {key!r}")
+        res, k = m.run_pair_probe(w, a, b)
+        n += k
+        out.append((key, res))
+    return hist, out, n
+
+
+def explore(pre, evs, depth, split_depth=2):
+    """BFS with the work below each depth-``split_depth`` state in its own process (like explore.parallel_bfs) that also
+    collects, per distinct ordered-pair state, a history reaching it (for the probe phase)."""
+    head_model = Model(pre, evs, probe=False)
+    total = X.Result()
+    head = X.bfs(head_model, min(split_depth, depth), xcheck_every=41)
+    total.merge(head)
+    pair_hist = dict(head_model.pair_hist)
+    if depth > split_depth:
+        total.complete, total.cap_hit = True, None
+        prefixes = X._prefixes(head_model, split_depth)
+        with mp.Pool(16) as pool:
+            for r, ph in pool.imap_unordered(_bfs_job, [(pre, evs, p, depth) for p in prefixes]):
+                total.merge(r)
+                for k, h in ph.items():
+                    cur = pair_hist.get(k)
+                    if cur is None:
+                        pair_hist[k] = h
+                    else:
+                        cands = [x for x in (cur[0], cur[1], h[0], h[1]) if x is not None]
+                        cands.sort(key=lambda x: (len(x), repr(x)))
+                        alt = next((x for x in cands[1:] if x != cands[0]), None)
+                        pair_hist[k] = [cands[0], alt]
+    return total, pair_hist
+
+
 def run(ctx):
     thorough = ctx.tier == "thorough"
     rnd = random.Random(ctx.seed)
@@ -328,14 +380,16 @@ def run(ctx):
     digests = []
     outcomes = set()
     samples = []
-    complete = True
     caps = []
-    depth = 6 if thorough else 4
-    for label, pre in (("bare", False), ("preloaded", True)):
-        evs = all_events(thorough)
+    depth = 5 if thorough else 4
+    n_probes = n_pairs = n_memo_x = 0
+    runs = [("bare", False, False, depth), ("preloaded", True, False, depth - 1)]
+    if thorough:
+        runs.append(("bare_core_deep", False, True, 7))
+    for label, pre, reduced, d in runs:
+        evs = all_events(thorough, reduced)
         rnd.shuffle(evs)
-        d = depth if not pre else depth - 1
-        r = X.parallel_bfs(_mk, (pre, evs), d, split_depth=2, xcheck_every=41)
+        r, pair_hist = explore(pre, evs, d)
         states += r.states
         trans += r.transitions
         xchecks += r.xchecks
@@ -347,9 +401,35 @@ def run(ctx):
         for rec, hist in r.violations:
             rec.setdefault("config", label)
             ctx.violation(rec, replay=dict(part="bfs", preloaded=pre, history=hist))
+        # probe phase: one probe set per distinct ordered-pair state (grouped by representative history);
+        # every 5th pair state is probed again from an alternative history and the results must agree
+        groups = {}
+        for i, (k, h) in enumerate(sorted(pair_hist.items(), key=lambda kv: repr(kv[0]))):
+            groups.setdefault(json.dumps(h[0]), []).append(("main", k))
+            if h[1] is not None and i % 5 == 0:
+                groups.setdefault(json.dumps(h[1]), []).append(("alt", k))
+        jobs = [(pre, evs, json.loads(hk), [k for _t, k in ks]) for hk, ks in groups.items()]
+        rnd.shuffle(jobs)
+        np_ = 0
+        seen_res = {}
+        with mp.Pool(16) as pool:
+            for hist, out, n in pool.imap_unordered(_probe_job, jobs, chunksize=2):
+                np_ += n
+                for key, res in out:
+                    if key in seen_res:
+                        n_memo_x += 1
+                        if seen_res[key] != res:
+                            raise RuntimeError(f"probe result is not a function of the pair state {key!r}: {seen_res[key]!r} / {res!r}")
+                        continue
+                    seen_res[key] = res
+                    for rec in res:
+                        rec = dict(rec, config=label)
+                        ctx.violation(rec, replay=dict(part="probe", preloaded=pre, history=hist, sender=key[0], receiver=key[1]))
+        n_pairs += len(pair_hist)
+        n_probes += np_
         ctx.parts["bfs_" + label] = dict(states=r.states, transitions=r.transitions, max_depth=r.max_depth, graph_closed=r.complete,
                                          cap=r.cap_hit, xchecks=r.xchecks, outcomes=len(r.outcomes), alphabet=len(evs),
-                                         probes_per_state="ordered pairs x sender profile x {CAM, VAM} reply; 3 real sends each")
+                                         distinct_pair_states=len(pair_hist), probes=np_, probe_sends=3 * np_)
     # ITS-AID lattice
     jobs = [("CAM", None), ("VAM", None), ("DENM", None)] + [("GEN", a) for a in S.ALL_PSIDS]
     n_aid = 0
@@ -361,19 +441,21 @@ def run(ctx):
                 ctx.violation(rec, replay=dict(part="aid", profile=key[0], psid=key[1]))
     ctx.parts["aid_lattice"] = dict(evaluations=n_aid, cases=[list(j) for j in jobs])
     ctx.coverage.update(
-        states=states, transitions=trans + n_aid, traces_validated_against_impl=trans + n_aid, evaluations=n_aid,
+        states=states, transitions=trans + 3 * n_probes + 2 * n_aid, traces_validated_against_impl=trans + 3 * n_probes + 2 * n_aid,
+        evaluations=n_aid, probes=n_probes, distinct_pair_states=n_pairs, probe_memo_crosschecks=n_memo_x,
         replay_crosschecks=xchecks, distinct_outcomes=len(outcomes), exhaustive=True, bfs_depth=depth, caps=caps,
         state_digests=digests,
         samples=samples[:4] or [[["send", "S1", "CAM"], ["join"], ["send", "S3", "CAM"], ["send", "S1", "CAM"]]],
         explanation=("every transition is a real origination through btp.Router/geonet.Router/SignService and a real reception by "
                      "every joined station (VerifyService, CertificateLibrary, P2PCD notifications); emitted frames are decoded by "
-                     "mc/ref/chain_check.py; in every distinct state the two-exchange probe is executed on copies; exhaustive to the "
-                     "stated depth"),
+                     "mc/ref/chain_check.py; for every distinct ordered-pair state reachable within the depth the two-exchange probe "
+                     "(three further real sends) is executed; exhaustive to the stated depth"),
     )
     ctx.assumptions += [
         "profile rules as encoded in mc/checks/c05.py (TS 103 097 clauses 5.2, 7.1.1-7.1.3 from memory of the standard; CAM/VAM: "
         "certificate required if > 1 s since the last own emission carrying it (any message type - the weakest reading) or if asked)",
         "'two further message exchanges' = the peer's next P2PCD-capable message (CAM/VAM) followed by the sender's next message of the same profile",
+        "the probe outcome is a function of the two stations' states (third station silent); cross-checked on alternative histories",
         "location-table state is excluded from the canonical state: equal-time packets are accepted by the GN layer (verified by the "
         "delivery check on every transition)"]
 
@@ -386,7 +468,7 @@ def replay(path):
         key, bad, acc = _aid_job((rp["profile"], rp["psid"]))
         print(key, "accepted" if acc else "not accepted", bad or "ok")
         return 1 if bad else 0
-    m = Model(rp["preloaded"], all_events(True), probe=True)
+    m = Model(rp["preloaded"], all_events(True), probe=False)
     w = m.init()
     bad = []
     hist = [tuple(e) for e in rp["history"]]
@@ -395,4 +477,8 @@ def replay(path):
         b = m.check(w, ev, obs, hist[:i + 1])
         print(i, ev, "->", obs, b or "ok")
         bad += b
+    if rp.get("part") == "probe":
+        res, _n = m.run_pair_probe(w, rp["sender"], rp["receiver"])
+        print("probe", rp["sender"], "->", rp["receiver"], res or "ok")
+        bad += res
     return 1 if bad else 0
